@@ -677,7 +677,22 @@ namespace
                 if (op && op->hasBody() && !op->isDependentContext() && !x->isGenericLambda())
                     o["fid"] = funcId(op);
                 else
+                {
+                    // generic lambda: the instantiated specialisations of its call operator
                     o["generic"] = true;
+                    json::Array fids;
+                    if (op)
+                        if (auto* ftd = op->getDescribedFunctionTemplate())
+                            for (auto* spec : ftd->specializations())
+                            {
+                                const FunctionDecl* sdef = definitionOf(spec);
+                                if (sdef && sdef->hasBody() && !sdef->isDependentContext())
+                                    fids.push_back(funcId(sdef));
+                            }
+                    if (fids.size() == 1)
+                        o["fid"] = *fids[0].getAsInteger();
+                    o["fids"] = std::move(fids);
+                }
                 o["lcls"] = typeId(Ctx.getRecordType(x->getLambdaClass()));
                 json::Array caps;
                 auto initIt = x->capture_init_begin();
@@ -922,6 +937,19 @@ namespace
                 o["k"] = "switch";
                 o["c"] = emitExpr(x->getCond());
                 o["body"] = emitStmtOpt(x->getBody());
+                // number of enumerators when the condition is of enumeration type (exhaustiveness)
+                {
+                    QualType ct = x->getCond()->IgnoreParenImpCasts()->getType();
+                    if (const auto* et = ct->getAs<EnumType>())
+                    {
+                        int n = 0;
+                        for (auto it = et->getDecl()->enumerator_begin(); it != et->getDecl()->enumerator_end(); ++it)
+                            ++n;
+                        o["enum_n"] = n;
+                    }
+                    if (x->isAllEnumCasesCovered())
+                        o["all_enum"] = true;
+                }
             }
             else if (auto* x = dyn_cast<CaseStmt>(s))
             {
